@@ -453,7 +453,7 @@ def collect_inputs_for_node(
 
     inputs = {}
     for param in node.inputs:
-        if isinstance(node, GraphNode) and not node.map_config:
+        if isinstance(node, GraphNode) and param not in (node._map_over or ()):
             # A signature default of a node INSIDE the nested graph is resolved (and copied per
             # consumer and per run) by the nested run itself; passing one shared copy in would
             # make the inner consumers of that parameter share one object
